@@ -23,15 +23,17 @@ structure SameDurable (σ σ' : St) : Prop where
   shelf : σ'.shelf = σ.shelf
   admitted : σ'.admitted = σ.admitted
   ledger : σ'.ledger = σ.ledger
+  evented : σ'.evented = σ.evented
 
-theorem SameDurable.refl (σ : St) : SameDurable σ σ := ⟨rfl, rfl, rfl, rfl, rfl⟩
+theorem SameDurable.refl (σ : St) : SameDurable σ σ := ⟨rfl, rfl, rfl, rfl, rfl, rfl⟩
 theorem SameDurable.trans {a b d : St} (h1 : SameDurable a b) (h2 : SameDurable b d) : SameDurable a d :=
-  ⟨h2.dag.trans h1.dag, h2.payloads.trans h1.payloads, h2.shelf.trans h1.shelf, h2.admitted.trans h1.admitted, h2.ledger.trans h1.ledger⟩
+  ⟨h2.dag.trans h1.dag, h2.payloads.trans h1.payloads, h2.shelf.trans h1.shelf, h2.admitted.trans h1.admitted, h2.ledger.trans h1.ledger,
+   h2.evented.trans h1.evented⟩
 
 theorem spawn_same (c : Cfg) (σ : St) (s r k : Nat) : SameDurable σ (spawn c σ s r k) := by
-  unfold spawn; split <;> exact ⟨rfl, rfl, rfl, rfl, rfl⟩
+  unfold spawn; split <;> exact ⟨rfl, rfl, rfl, rfl, rfl, rfl⟩
 
-theorem crashSt_same (σ : St) : SameDurable σ (crashSt σ) := ⟨rfl, rfl, rfl, rfl, rfl⟩
+theorem crashSt_same (σ : St) : SameDurable σ (crashSt σ) := ⟨rfl, rfl, rfl, rfl, rfl, rfl⟩
 
 /-- what one `notifyNow` does to the durable state -/
 inductive NowStep (c : Cfg) (s r : Nat) (σ σ' : St) : Prop where
@@ -113,7 +115,7 @@ theorem afterCommit_dstep (c : Cfg) (σ : St) (order : List Nat) : DStep c σ (a
     have h := notifyAll_dstep c ev order { σ with pending := rest }
     generalize notifyAll c ev order { σ with pending := rest } = p at h
     obtain ⟨σ', b⟩ := p
-    have h0 : DStep c σ { σ with pending := rest } := .vol ⟨rfl, rfl, rfl, rfl, rfl⟩
+    have h0 : DStep c σ { σ with pending := rest } := .vol ⟨rfl, rfl, rfl, rfl, rfl, rfl⟩
     cases b <;> simp only
     · exact .trans h0 h
     · exact .trans (.trans h0 h) (.vol (crashSt_same _))
@@ -176,7 +178,7 @@ theorem fire_dstep (c : Cfg) (σ : St) (s r : Nat) : DStep c σ (fire c σ s r) 
   · exact DStep.refl _ _
   · next t ht =>
     simp only
-    have h0 : DStep c σ { σ with running := σ.running.erase t } := .vol ⟨rfl, rfl, rfl, rfl, rfl⟩
+    have h0 : DStep c σ { σ with running := σ.running.erase t } := .vol ⟨rfl, rfl, rfl, rfl, rfl, rfl⟩
     have h := notifyNow_step c { σ with running := σ.running.erase t } s r
     generalize notifyNow c { σ with running := σ.running.erase t } s r = p at h
     obtain ⟨σ', res⟩ := p
@@ -184,7 +186,7 @@ theorem fire_dstep (c : Cfg) (σ : St) (s r : Nat) : DStep c σ (fire c σ s r) 
     · exact .trans h0 (.now _ _ h)
     · split
       · exact .trans h0 (.now _ _ h)
-      · exact .trans (.trans h0 (.now _ _ h)) (.vol ⟨rfl, rfl, rfl, rfl, rfl⟩)
+      · exact .trans (.trans h0 (.now _ _ h)) (.vol ⟨rfl, rfl, rfl, rfl, rfl, rfl⟩)
     · exact .trans h0 (.now _ _ h)
     · exact .trans (.trans h0 (.now _ _ h)) (.vol (crashSt_same _))
 
@@ -239,11 +241,11 @@ theorem completedIn_iff (l : List Entry) (s r : Nat) :
 structure Inv (c : Cfg) (σ : St) : Prop where
   jobDag : ∀ s r j, σ.shelf s r = some j → r ∈ σ.dag
   jobSel : ∀ s r j, σ.shelf s r = some j → c.sel s r j.type = true
-  jobPay : ∀ s r j, σ.shelf s r = some j → j.type = .payload → c.phash r ∈ σ.payloads
+  jobPay : ∀ s r j, σ.shelf s r = some j → j.type = .payload → c.phash r ∈ σ.payloads ∧ r ∈ σ.evented
   callOk : ∀ s r ty k o, Entry.call s r ty k o ∈ σ.ledger →
-    r ∈ σ.dag ∧ c.sel s r ty = true ∧ (ty = .payload → c.phash r ∈ σ.payloads)
+    r ∈ σ.dag ∧ c.sel s r ty = true ∧ (ty = .payload → c.phash r ∈ σ.payloads ∧ r ∈ σ.evented)
   finOk : ∀ s r, Entry.fin s r ∈ σ.ledger →
-    r ∈ σ.dag ∧ ∃ ty, c.sel s r ty = true ∧ (ty = .payload → c.phash r ∈ σ.payloads)
+    r ∈ σ.dag ∧ ∃ ty, c.sel s r ty = true ∧ (ty = .payload → c.phash r ∈ σ.payloads ∧ r ∈ σ.evented)
   admDag : ∀ r ty, (r, ty) ∈ σ.admitted → r ∈ σ.dag
   admPay : ∀ r, (r, EvType.payload) ∈ σ.admitted → c.phash r ∈ σ.payloads
   dagLt : ∀ r, r ∈ σ.dag → r < c.nRefs
@@ -251,13 +253,13 @@ structure Inv (c : Cfg) (σ : St) : Prop where
     (∃ j, σ.shelf s r = some j ∧ j.type = ty) ∨ completedIn σ.ledger s r = true
 
 theorem Inv.same {c : Cfg} {σ σ' : St} (h : Inv c σ) (e : SameDurable σ σ') : Inv c σ' := by
-  obtain ⟨e1, e2, e3, e4, e5⟩ := e
+  obtain ⟨e1, e2, e3, e4, e5, e6⟩ := e
   constructor
   · rw [e3, e1]; exact h.jobDag
   · rw [e3]; exact h.jobSel
-  · rw [e3, e2]; exact h.jobPay
-  · rw [e5, e1, e2]; exact h.callOk
-  · rw [e5, e1, e2]; exact h.finOk
+  · rw [e3, e2, e6]; exact h.jobPay
+  · rw [e5, e1, e2, e6]; exact h.callOk
+  · rw [e5, e1, e2, e6]; exact h.finOk
   · rw [e4, e1]; exact h.admDag
   · rw [e4, e2]; exact h.admPay
   · rw [e1]; exact h.dagLt
@@ -383,16 +385,17 @@ structure SaveSpec (c : Cfg) (ev : Nat × EvType) (n : Nat) (σ σ' : St) : Prop
   pending : σ'.pending = σ.pending
   shelf : ∀ s r, σ'.shelf s r =
     if s < n ∧ r = ev.1 ∧ c.sel s r ev.2 = true ∧ σ.shelf s r = none then some (newJob ev.2) else σ.shelf s r
+  evented : σ'.evented = σ.evented
 
 theorem save_fold_spec (c : Cfg) (ev : Nat × EvType) (n : Nat) (σ : St) :
     SaveSpec c ev n σ ((List.range n).foldl (save c ev) σ) := by
   induction n with
-  | zero => exact ⟨rfl, rfl, rfl, rfl, rfl, rfl, by intro s r; simp⟩
+  | zero => exact ⟨rfl, rfl, rfl, rfl, rfl, rfl, by intro s r; simp, rfl⟩
   | succ n ih =>
     rw [List.range_succ, List.foldl_append]
     simp only [List.foldl_cons, List.foldl_nil]
     generalize (List.range n).foldl (save c ev) σ = σ1 at ih
-    obtain ⟨h1, h2, h3, h4, h5, h6, h7⟩ := ih
+    obtain ⟨h1, h2, h3, h4, h5, h6, h7, h8⟩ := ih
     have hn : σ1.shelf n ev.1 = σ.shelf n ev.1 := by
       rw [h7]; simp
     unfold save
@@ -401,7 +404,7 @@ theorem save_fold_spec (c : Cfg) (ev : Nat × EvType) (n : Nat) (σ : St) :
       cases hsh : σ1.shelf n ev.1 with
       | none =>
         simp only
-        refine ⟨h1, h2, h3, h4, h5, h6, ?_⟩
+        refine ⟨h1, h2, h3, h4, h5, h6, ?_, h8⟩
         intro s r
         simp only [setJob_shelf, newJob]
         rw [hsh] at hn
@@ -418,7 +421,7 @@ theorem save_fold_spec (c : Cfg) (ev : Nat × EvType) (n : Nat) (σ : St) :
           · simp [hr]
       | some j =>
         simp only
-        refine ⟨h1, h2, h3, h4, h5, h6, ?_⟩
+        refine ⟨h1, h2, h3, h4, h5, h6, ?_, h8⟩
         intro s r
         rw [h7]
         rw [hsh] at hn
@@ -432,7 +435,7 @@ theorem save_fold_spec (c : Cfg) (ev : Nat × EvType) (n : Nat) (σ : St) :
             simp only [this]
           · simp [hr]
     · rw [if_neg hsel]
-      refine ⟨h1, h2, h3, h4, h5, h6, ?_⟩
+      refine ⟨h1, h2, h3, h4, h5, h6, ?_, h8⟩
       intro s r
       rw [h7]
       by_cases heq : s = n ∧ r = ev.1
@@ -452,14 +455,14 @@ theorem saveEvent_spec (c : Cfg) (σ : St) (ev : Nat × EvType) : SaveSpec c ev 
 theorem saveEvent_dag (c : Cfg) (σ : St) (ev : Nat × EvType) : (saveEvent c σ ev).dag = σ.dag := (saveEvent_spec c σ ev).dag
 
 /-- admission of one event inside a write transaction: DAG / payload store grow, the event is recorded, saveEvent runs -/
-theorem Inv.admitEvent {c : Cfg} {σ : St} (h : Inv c σ) (r : Nat) (ty : EvType) (D' P' : List Nat)
-    (hD : ∀ x, x ∈ σ.dag → x ∈ D') (hP : ∀ x, x ∈ σ.payloads → x ∈ P') (hr : r ∈ D')
-    (hty : ty = .payload → c.phash r ∈ P') (hDlt : ∀ x, x ∈ D' → x < c.nRefs) :
-    Inv c (saveEvent c { σ with dag := D', payloads := P', admitted := (r, ty) :: σ.admitted } (r, ty)) := by
-  have sp := saveEvent_spec c { σ with dag := D', payloads := P', admitted := (r, ty) :: σ.admitted } (r, ty)
-  generalize saveEvent c { σ with dag := D', payloads := P', admitted := (r, ty) :: σ.admitted } (r, ty) = σ' at sp
-  obtain ⟨e1, e2, e3, e4, _, _, e7⟩ := sp
-  simp only at e1 e2 e3 e4 e7
+theorem Inv.admitEvent {c : Cfg} {σ : St} (h : Inv c σ) (r : Nat) (ty : EvType) (D' P' E' : List Nat)
+    (hD : ∀ x, x ∈ σ.dag → x ∈ D') (hP : ∀ x, x ∈ σ.payloads → x ∈ P') (hE : ∀ x, x ∈ σ.evented → x ∈ E') (hr : r ∈ D')
+    (hty : ty = .payload → c.phash r ∈ P' ∧ r ∈ E') (hDlt : ∀ x, x ∈ D' → x < c.nRefs) :
+    Inv c (saveEvent c { σ with dag := D', payloads := P', evented := E', admitted := (r, ty) :: σ.admitted } (r, ty)) := by
+  have sp := saveEvent_spec c { σ with dag := D', payloads := P', evented := E', admitted := (r, ty) :: σ.admitted } (r, ty)
+  generalize saveEvent c { σ with dag := D', payloads := P', evented := E', admitted := (r, ty) :: σ.admitted } (r, ty) = σ' at sp
+  obtain ⟨e1, e2, e3, e4, _, _, e7, e8⟩ := sp
+  simp only at e1 e2 e3 e4 e7 e8
   constructor
   · intro s' r' j hh
     rw [e7] at hh; rw [e1]
@@ -472,18 +475,18 @@ theorem Inv.admitEvent {c : Cfg} {σ : St} (h : Inv c σ) (r : Nat) (ty : EvType
     · next hc => injection hh with hh; subst hh; exact hc.2.2.1
     · exact h.jobSel _ _ _ hh
   · intro s' r' j hh hp
-    rw [e7] at hh; rw [e2]
+    rw [e7] at hh; rw [e2, e8]
     split at hh
     · next hc => injection hh with hh; subst hh; rw [hc.2.1]; exact hty hp
-    · exact hP _ (h.jobPay _ _ _ hh hp)
+    · exact ⟨hP _ (h.jobPay _ _ _ hh hp).1, hE _ (h.jobPay _ _ _ hh hp).2⟩
   · intro s' r' ty' k o hm
-    rw [e4] at hm; rw [e1, e2]
+    rw [e4] at hm; rw [e1, e2, e8]
     obtain ⟨a, b, d⟩ := h.callOk _ _ _ _ _ hm
-    exact ⟨hD _ a, b, fun x => hP _ (d x)⟩
+    exact ⟨hD _ a, b, fun x => ⟨hP _ (d x).1, hE _ (d x).2⟩⟩
   · intro s' r' hm
-    rw [e4] at hm; rw [e1, e2]
+    rw [e4] at hm; rw [e1, e2, e8]
     obtain ⟨a, ty', b, d⟩ := h.finOk _ _ hm
-    exact ⟨hD _ a, ty', b, fun x => hP _ (d x)⟩
+    exact ⟨hD _ a, ty', b, fun x => ⟨hP _ (d x).1, hE _ (d x).2⟩⟩
   · intro r' ty' hm
     rw [e3] at hm; rw [e1]
     rcases List.mem_cons.mp hm with hm | hm
@@ -492,7 +495,7 @@ theorem Inv.admitEvent {c : Cfg} {σ : St} (h : Inv c σ) (r : Nat) (ty : EvType
   · intro r' hm
     rw [e3] at hm; rw [e2]
     rcases List.mem_cons.mp hm with hm | hm
-    · injection hm with a b; rw [a]; exact hty b.symm
+    · injection hm with a b; rw [a]; exact (hty b.symm).1
     · exact hP _ (h.admPay _ hm)
   · rw [e1]; exact hDlt
   · intro r' ty' s' t hm hlt hsel htyp
@@ -565,7 +568,7 @@ theorem Inv.dstep {c : Cfg} {σ σ' : St} (h : Inv c σ) (d : DStep c σ σ') : 
   | trans _ _ ih1 ih2 => exact ih2 (ih1 h)
 
 theorem Inv.pending {c : Cfg} {σ : St} (h : Inv c σ) (p : List (Nat × EvType)) : Inv c { σ with pending := p } :=
-  h.same ⟨rfl, rfl, rfl, rfl, rfl⟩
+  h.same ⟨rfl, rfl, rfl, rfl, rfl, rfl⟩
 
 theorem Inv.addTx {c : Cfg} {σ : St} (h : Inv c σ) (a : AddArgs) : Inv c (addTx c σ a).1 := by
   unfold Nuts.C14.addTx
@@ -584,14 +587,15 @@ theorem Inv.addTx {c : Cfg} {σ : St} (h : Inv c σ) (a : AddArgs) : Inv c (addT
     · omega
     · exact h.dagLt x hx
   split
-  · have h1 := h.admitEvent a.ref .payload (a.ref :: σ.dag) (c.phash a.ref :: σ.payloads)
-      (fun x hx => List.mem_cons_of_mem _ hx) (fun x hx => List.mem_cons_of_mem _ hx) List.mem_cons_self
-      (fun _ => List.mem_cons_self) hDlt
+  · have h1 := h.admitEvent a.ref .payload (a.ref :: σ.dag) (c.phash a.ref :: σ.payloads) (a.ref :: σ.evented)
+      (fun x hx => List.mem_cons_of_mem _ hx) (fun x hx => List.mem_cons_of_mem _ hx) (fun x hx => List.mem_cons_of_mem _ hx)
+      List.mem_cons_self (fun _ => ⟨List.mem_cons_self, List.mem_cons_self⟩) hDlt
     generalize hσ1 : saveEvent c _ (a.ref, EvType.payload) = σ1 at h1 ⊢
     have hr : a.ref ∈ σ1.dag := by rw [← hσ1, saveEvent_dag]; exact List.mem_cons_self
-    exact h1.admitEvent a.ref .tx σ1.dag σ1.payloads (fun x hx => hx) (fun x hx => hx) hr (fun hh => by cases hh) h1.dagLt
-  · exact h.admitEvent a.ref .tx (a.ref :: σ.dag) σ.payloads
-      (fun x hx => List.mem_cons_of_mem _ hx) (fun x hx => hx) List.mem_cons_self (fun hh => by cases hh) hDlt
+    exact h1.admitEvent a.ref .tx σ1.dag σ1.payloads σ1.evented (fun x hx => hx) (fun x hx => hx) (fun x hx => hx) hr
+      (fun hh => by cases hh) h1.dagLt
+  · exact h.admitEvent a.ref .tx (a.ref :: σ.dag) σ.payloads σ.evented
+      (fun x hx => List.mem_cons_of_mem _ hx) (fun x hx => hx) (fun x hx => hx) List.mem_cons_self (fun hh => by cases hh) hDlt
 
 
 theorem Inv.writePayload {c : Cfg} {σ : St} (h : Inv c σ) (r : Nat) (cf : Bool) : Inv c (writePayload c σ r cf).1 := by
@@ -603,8 +607,9 @@ theorem Inv.writePayload {c : Cfg} {σ : St} (h : Inv c σ) (r : Nat) (cf : Bool
   simp only
   apply Inv.pending
   have hd' : r ∈ σ.dag := Classical.not_not.mp hd
-  exact h.admitEvent r .payload σ.dag (c.phash r :: σ.payloads) (fun x hx => hx)
-    (fun x hx => List.mem_cons_of_mem _ hx) hd' (fun _ => List.mem_cons_self) h.dagLt
+  exact h.admitEvent r .payload σ.dag (c.phash r :: σ.payloads) (r :: σ.evented) (fun x hx => hx)
+    (fun x hx => List.mem_cons_of_mem _ hx) (fun x hx => List.mem_cons_of_mem _ hx) hd'
+    (fun _ => ⟨List.mem_cons_self, List.mem_cons_self⟩) h.dagLt
 
 theorem Inv.init (c : Cfg) : Inv c init := by
   constructor <;> intros <;> simp_all [Nuts.C14.init]
@@ -632,7 +637,7 @@ structure Inv2 (c : Cfg) (σ : St) : Prop where
   ok : ∀ s r t, Typed c s t → okLedger s r σ.ledger = true
 
 theorem Inv2.same {c : Cfg} {σ σ' : St} (h : Inv2 c σ) (e : SameDurable σ σ') : Inv2 c σ' := by
-  obtain ⟨_, _, e3, _, e5⟩ := e
+  obtain ⟨_, _, e3, _, e5, _⟩ := e
   constructor
   · rw [e3, e5]; exact h.doneGone
   · rw [e5]; exact h.ok
@@ -751,12 +756,12 @@ theorem Inv2.finishedExt {c : Cfg} {σ : St} (h : Inv2 c σ) (s r : Nat) (f : Bo
         simp only [log_ledger, setJob_ledger, okLedger, Bool.and_eq_true, Bool.or_eq_true, Bool.not_eq_true']
         exact ⟨.inl rfl, h.ok _ _ t htyp⟩
 
-theorem Inv2.admitEvent {c : Cfg} {σ : St} (h : Inv2 c σ) (r : Nat) (ty : EvType) (D' P' : List Nat)
+theorem Inv2.admitEvent {c : Cfg} {σ : St} (h : Inv2 c σ) (r : Nat) (ty : EvType) (D' P' E' : List Nat)
     (hfresh : ∀ s' t, Typed c s' t → c.sel s' r ty = true → completedIn σ.ledger s' r = false) :
-    Inv2 c (saveEvent c { σ with dag := D', payloads := P', admitted := (r, ty) :: σ.admitted } (r, ty)) := by
-  have sp := saveEvent_spec c { σ with dag := D', payloads := P', admitted := (r, ty) :: σ.admitted } (r, ty)
-  generalize saveEvent c { σ with dag := D', payloads := P', admitted := (r, ty) :: σ.admitted } (r, ty) = σ' at sp
-  obtain ⟨_, _, _, e4, _, _, e7⟩ := sp
+    Inv2 c (saveEvent c { σ with dag := D', payloads := P', evented := E', admitted := (r, ty) :: σ.admitted } (r, ty)) := by
+  have sp := saveEvent_spec c { σ with dag := D', payloads := P', evented := E', admitted := (r, ty) :: σ.admitted } (r, ty)
+  generalize saveEvent c { σ with dag := D', payloads := P', evented := E', admitted := (r, ty) :: σ.admitted } (r, ty) = σ' at sp
+  obtain ⟨_, _, _, e4, _, _, e7, _⟩ := sp
   simp only at e4 e7
   constructor
   · intro s' r' t htyp hc
@@ -769,7 +774,7 @@ theorem Inv2.admitEvent {c : Cfg} {σ : St} (h : Inv2 c σ) (r : Nat) (ty : EvTy
   · rw [e4]; exact h.ok
 
 theorem Inv2.pending {c : Cfg} {σ : St} (h : Inv2 c σ) (p : List (Nat × EvType)) : Inv2 c { σ with pending := p } :=
-  h.same ⟨rfl, rfl, rfl, rfl, rfl⟩
+  h.same ⟨rfl, rfl, rfl, rfl, rfl, rfl⟩
 
 theorem saveEvent_ledger (c : Cfg) (σ : St) (ev : Nat × EvType) : (saveEvent c σ ev).ledger = σ.ledger := (saveEvent_spec c σ ev).ledger
 
@@ -796,11 +801,11 @@ theorem Inv2.addTx {c : Cfg} {σ : St} (h1 : Inv c σ) (h : Inv2 c σ) (a : AddA
   apply Inv2.pending
   have hfr : ∀ s', completedIn σ.ledger s' a.ref = false := fun s' => h1.notCompleted_of_notInDag s' a.ref hnd
   split
-  · have h2 := h.admitEvent a.ref .payload (a.ref :: σ.dag) (c.phash a.ref :: σ.payloads) (fun s' _ _ _ => hfr s')
+  · have h2 := h.admitEvent a.ref .payload (a.ref :: σ.dag) (c.phash a.ref :: σ.payloads) (a.ref :: σ.evented) (fun s' _ _ _ => hfr s')
     generalize hσ1 : saveEvent c _ (a.ref, EvType.payload) = σ1 at h2 ⊢
     have hl : σ1.ledger = σ.ledger := by rw [← hσ1, saveEvent_ledger]
-    exact h2.admitEvent a.ref .tx σ1.dag σ1.payloads (fun s' _ _ _ => by rw [hl]; exact hfr s')
-  · exact h.admitEvent a.ref .tx (a.ref :: σ.dag) σ.payloads (fun s' _ _ _ => hfr s')
+    exact h2.admitEvent a.ref .tx σ1.dag σ1.payloads σ1.evented (fun s' _ _ _ => by rw [hl]; exact hfr s')
+  · exact h.admitEvent a.ref .tx (a.ref :: σ.dag) σ.payloads σ.evented (fun s' _ _ _ => hfr s')
 
 theorem Inv2.writePayload {c : Cfg} {σ : St} (hskip : c.skipPresent = true) (h1 : Inv c σ) (h : Inv2 c σ) (r : Nat) (cf : Bool) :
     Inv2 c (writePayload c σ r cf).1 := by
@@ -811,8 +816,8 @@ theorem Inv2.writePayload {c : Cfg} {σ : St} (hskip : c.skipPresent = true) (h1
   next _ _ hns =>
   simp only
   apply Inv2.pending
-  have hnp : c.phash r ∉ σ.payloads := fun hp => hns ⟨hskip, hp⟩
-  refine h.admitEvent r .payload σ.dag (c.phash r :: σ.payloads) ?_
+  have hnp : r ∉ σ.evented := fun hp => hns ⟨hskip, hp⟩
+  refine h.admitEvent r .payload σ.dag (c.phash r :: σ.payloads) (r :: σ.evented) ?_
   intro s' t htyp hsel
   have ht : EvType.payload = t := htyp _ _ hsel
   cases hc : completedIn σ.ledger s' r with
@@ -822,9 +827,9 @@ theorem Inv2.writePayload {c : Cfg} {σ : St} (hskip : c.skipPresent = true) (h1
     rw [completedIn_iff] at hc
     rcases hc with ⟨ty, k, hm⟩ | hm
     · obtain ⟨_, hs2, hp⟩ := h1.callOk _ _ _ _ _ hm
-      exact hnp (hp ((htyp _ _ hs2).trans ht.symm))
+      exact hnp (hp ((htyp _ _ hs2).trans ht.symm)).2
     · obtain ⟨_, ty, hs2, hp⟩ := h1.finOk _ _ hm
-      exact hnp (hp ((htyp _ _ hs2).trans ht.symm))
+      exact hnp (hp ((htyp _ _ hs2).trans ht.symm)).2
 
 theorem Inv2.init (c : Cfg) : Inv2 c init := by
   constructor <;> intros <;> simp_all [Nuts.C14.init, completedIn, okLedger]
